@@ -42,7 +42,7 @@ func genMicroTasks() {
 				switch n.Name {
 				case "microTaskFinished":
 					ce, ok := vs.Values[i].(*ast.CallExpr)
-					if !ok || !isIdent(ce.Fun, "make") || len(ce.Args) != 2 {
+					if !ok || !mtIsIdent(ce.Fun, "make") || len(ce.Args) != 2 {
 						die("microTaskFinished: expected make(chan struct{}, N)")
 					}
 					if _, ok := ce.Args[0].(*ast.ChanType); !ok {
@@ -72,7 +72,7 @@ func genMicroTasks() {
 		die("SetMaxConcurrentMicroTasks: expected if/else")
 	}
 	cmp, ok := ifs.Cond.(*ast.BinaryExpr)
-	if !ok || !isIdent(cmp.X, "n") {
+	if !ok || !mtIsIdent(cmp.X, "n") {
 		die("SetMaxConcurrentMicroTasks: condition is not a comparison of n")
 	}
 	op := leanCmp(cmp.Op)
@@ -151,14 +151,14 @@ func genMicroTasks() {
 				return true
 			}
 			if !isSel(ce.Fun, "atomic", "AddInt32") || len(ce.Args) != 2 {
-				if isSel(ce.Fun, "atomic", "StoreInt32") && len(ce.Args) == 2 && isIdent(ce.Args[0], "microTasks") {
+				if isSel(ce.Fun, "atomic", "StoreInt32") && len(ce.Args) == 2 && mtIsIdent(ce.Args[0], "microTasks") {
 					die("%s: stores to the global microtask counter", fn.Name.Name)
 				}
 				return true
 			}
 			t := ""
 			switch {
-			case isIdent(ce.Args[0], "microTasks"):
+			case mtIsIdent(ce.Args[0], "microTasks"):
 				t = "g"
 			case isSel(ce.Args[0], "m", "microTaskCnt"):
 				t = "m"
@@ -224,15 +224,15 @@ func genMicroTasks() {
 				return true
 			}
 			be, ok := is.Cond.(*ast.BinaryExpr)
-			if !ok || !isIdent(be.X, "maxDelay") {
+			if !ok || !mtIsIdent(be.X, "maxDelay") {
 				return true
 			}
 			// the only recognised shape: if maxDelay <= 0 { maxDelay = default…MaxDelay }
 			okShape := be.Op == token.LEQ && constVal(fset, be.Y).ExactString() == "0" && is.Else == nil && len(is.Body.List) == 1
 			if okShape {
 				as, ok := is.Body.List[0].(*ast.AssignStmt)
-				okShape = ok && len(as.Lhs) == 1 && len(as.Rhs) == 1 && isIdent(as.Lhs[0], "maxDelay") &&
-					(isIdent(as.Rhs[0], "defaultMediumPriorityMaxDelay") || isIdent(as.Rhs[0], "defaultLowPriorityMaxDelay"))
+				okShape = ok && len(as.Lhs) == 1 && len(as.Rhs) == 1 && mtIsIdent(as.Lhs[0], "maxDelay") &&
+					(mtIsIdent(as.Rhs[0], "defaultMediumPriorityMaxDelay") || mtIsIdent(as.Rhs[0], "defaultLowPriorityMaxDelay"))
 			}
 			if !okShape {
 				die("%s: unrecognised condition on maxDelay", e[0])
@@ -252,7 +252,7 @@ func genMicroTasks() {
 	decIdx, tokIdx := -1, -1
 	for i, st := range con.Body.List {
 		if es, ok := st.(*ast.ExprStmt); ok {
-			if ce, ok := es.X.(*ast.CallExpr); ok && isSel(ce.Fun, "atomic", "AddInt32") && isIdent(ce.Args[0], "microTasks") {
+			if ce, ok := es.X.(*ast.CallExpr); ok && isSel(ce.Fun, "atomic", "AddInt32") && mtIsIdent(ce.Args[0], "microTasks") {
 				decIdx = i
 			}
 		}
@@ -262,7 +262,7 @@ func genMicroTasks() {
 				cc := c.(*ast.CommClause)
 				if cc.Comm == nil {
 					def = true
-				} else if ss, ok := cc.Comm.(*ast.SendStmt); ok && isIdent(ss.Chan, "microTaskFinished") {
+				} else if ss, ok := cc.Comm.(*ast.SendStmt); ok && mtIsIdent(ss.Chan, "microTaskFinished") {
 					sends++
 				}
 			}
@@ -280,19 +280,19 @@ func genMicroTasks() {
 	write("MicroTasks.lean", sb.String())
 }
 
-func isIdent(e ast.Expr, name string) bool {
+func mtIsIdent(e ast.Expr, name string) bool {
 	id, ok := e.(*ast.Ident)
 	return ok && id.Name == name
 }
 
 func isSel(e ast.Expr, x, sel string) bool {
 	s, ok := e.(*ast.SelectorExpr)
-	return ok && isIdent(s.X, x) && s.Sel.Name == sel
+	return ok && mtIsIdent(s.X, x) && s.Sel.Name == sel
 }
 
 func isLoadOf(e ast.Expr, v string) bool {
 	ce, ok := e.(*ast.CallExpr)
-	return ok && isSel(ce.Fun, "atomic", "LoadInt32") && len(ce.Args) == 1 && isIdent(ce.Args[0], v)
+	return ok && isSel(ce.Fun, "atomic", "LoadInt32") && len(ce.Args) == 1 && mtIsIdent(ce.Args[0], v)
 }
 
 func leanCmp(op token.Token) string {
@@ -325,10 +325,10 @@ func storeArg(fset *token.FileSet, b *ast.BlockStmt, where string) string {
 		die("%s: expected a call", where)
 	}
 	ce, ok := es.X.(*ast.CallExpr)
-	if !ok || !isSel(ce.Fun, "atomic", "StoreInt32") || len(ce.Args) != 2 || !isIdent(ce.Args[0], "microTasksThreshhold") {
+	if !ok || !isSel(ce.Fun, "atomic", "StoreInt32") || len(ce.Args) != 2 || !mtIsIdent(ce.Args[0], "microTasksThreshhold") {
 		die("%s: expected atomic.StoreInt32(microTasksThreshhold, …)", where)
 	}
-	if conv, ok := ce.Args[1].(*ast.CallExpr); ok && isIdent(conv.Fun, "int32") && len(conv.Args) == 1 && isIdent(conv.Args[0], "n") {
+	if conv, ok := ce.Args[1].(*ast.CallExpr); ok && mtIsIdent(conv.Fun, "int32") && len(conv.Args) == 1 && mtIsIdent(conv.Args[0], "n") {
 		return "n"
 	}
 	return constVal(fset, ce.Args[1]).ExactString()
@@ -357,7 +357,7 @@ func durationMs(fset *token.FileSet, e ast.Expr) string {
 func hasGlobalAdd(n ast.Node) bool {
 	found := false
 	ast.Inspect(n, func(x ast.Node) bool {
-		if ce, ok := x.(*ast.CallExpr); ok && isSel(ce.Fun, "atomic", "AddInt32") && len(ce.Args) == 2 && isIdent(ce.Args[0], "microTasks") {
+		if ce, ok := x.(*ast.CallExpr); ok && isSel(ce.Fun, "atomic", "AddInt32") && len(ce.Args) == 2 && mtIsIdent(ce.Args[0], "microTasks") {
 			found = true
 		}
 		return true
